@@ -13,7 +13,7 @@ Layers:
     Counted separately in the evidence (`pos-in-user-snippet`).
   * CORRESPONDENCE: outcome class of the extracted Coq model `expand_markup_str` (Ok | ParseErr kind pos |
     Internal | OutOfFuel) == outcome class of the implementation (incl. error kind and position) on every case
-    the model covers (BEM and markup.href configurations included; not lorem), and the output TEXT is equal as well.
+    the model covers (BEM, markup.href and lorem configurations included), and the output TEXT is equal as well.
   * markup.href (coq/model/MarkupHref.v, insert_href in coq/model/MarkupConvert.v): harness/href_util.py compares the
     matchers with the compiled regex objects, insert_href with the real one, and the FULL expand() output / callback
     events on URL / e-mail like wrap texts.
@@ -598,8 +598,8 @@ def run_markup(ctx, model_ok=True):
             '(delete/insert/swap/duplicate) of valid abbreviations under random option sets (syntax, text str/list, comments, JSX, '
             'BEM, context, maxRepeat/max_repeat, user snippets incl. malformed ones, variables, output options). Observable: outcome '
             'class ok | scanner-error pos | token-error pos | internal type | recursion | hang. Non-trivial = raises a parse error '
-            'or expands >= 2 characters of input to non-empty text; distinct by (configuration, input). lorem cases are '
-            'checked by the implementation oracle only (lorem text is not in the Coq model). BEM (coq/model/MarkupBem.v): '
+            'or expands >= 2 characters of input to non-empty text; distinct by (configuration, input). lorem cases run under the '
+            'deterministic randint oracle of harness/lorem_oracle.py and are compared like all others (the model gets the same draws). BEM (coq/model/MarkupBem.v): '
             'additionally the FULL output string of model and implementation is compared on every class string up to length 4 '
             '(thorough: 5) over `a b - _ 1 space` on the last of 1-3 nested elements, with/without a context class, default and '
             'custom separators, exhaustive pairs/triples of short class strings on chains and siblings (module-lifetime cache of '
@@ -646,17 +646,23 @@ def run_markup(ctx, model_ok=True):
         'full': ['C07_tokenize_safe', 'C07_parser_safe', 'C07_tokenize_parse_safe', 'C07_convert_safe', 'C07_resolve_safe',
                  'C07_builtin_tables_wf (complete sweep)', 'C07_user_table_wf', 'C07_tokenizer_output_wellformed',
                  'C07_parser_output_convertible', 'C07_bem_safe (BEM addon never raises: all nodes, paths, cache states, separators, contexts)',
-                 'C07_transform_safe (transform pass incl. BEM is total)',
-                 'C07_expand_safe (markup model, all inputs, all configurations with wf snippet table, bem.enabled included)',
+                 'C07_transform_forest_safe (transform pass incl. BEM is total)',
+                 'C07_lorem_pass_safe (lorem text generation, every forest, every stream of draws: paragraphs written or stream exhausted, never Internal)',
+                 'C07_transform_safe / C07_transform_safe_lorem_free (walk = lorem draws + transform: OutOfFuel exactly for an exhausted stream)',
+                 'C07_expand_safe (markup model, all inputs incl. lorem abbreviations, every stream of draws, all configurations with wf snippet '
+                 'table, bem.enabled included; OutOfFuel only when the lorem oracle stream ran out)',
                  'C07_expand_safe_any_table (malformed user snippets: position inside the snippet text)',
+                 'props/Lorem.v (lorem model extension): Lorem_randint, Lorem_sample_safe, Lorem_insert_commas_safe, Lorem_vocabularies_ok '
+                 '(complete sweep), Lorem_generator_safe (never Internal / never loop fuel, every header and stream), Lorem_paragraph_words '
+                 '(exactly word_count vocabulary entries in sentence form, common opening), Lorem_header_range, Lorem_word_count_in_range, '
+                 'Lorem_pass (only values change, only under a lorem header), Lorem_free_forest (porting lemma), Lorem_text_node, Lorem_test_agree',
                  'props/Href.v (markup.href model extension): Href_url_matcher / Href_email_matcher / Href_proto_matcher (matcher = '
                  'denotation of its regex, all strings), Href_value, Href_value_nonempty, Href_attrs_spec, Href_never_overwrites, '
                  'Href_written_only_when_empty, Href_text_as_by_insert_text, Href_off_is_href_free_converter (porting lemma), '
                  'Href_converter_cases, Href_same_outcome (markup.href adds no failure), Href_deepest_last_element'],
         'partial': [],
         'by_construction': ['formatters return plain values (no res, no fuel): proofs/SafeFormat.v'],
-        'not_in_model(implementation oracle only)': ['lorem text generation',
-                                                     'user callbacks other than the identity', 'CPython recursion limit (known finding)',
+        'not_in_model(implementation oracle only)': ['user callbacks other than the identity', 'CPython recursion limit (known finding)',
                                                      'digit runs beyond CPython int conversion limit (model numbers are unbounded)'],
     }
     # ---- correspondence with the extracted model
